@@ -20,6 +20,7 @@
 (define-fun tdiv ((a Int) (b Int)) Int (ite (>= a 0) (div a b) (- (div (- a) b))))
 (define-fun tmod ((a Int) (b Int)) Int (- a (* b (tdiv a b))))
 (define-fun absi ((a Int)) Int (ite (>= a 0) a (- a)))
+;@sig pow2 : int -> int
 (declare-fun pow2 (Int) Int)
 (assert (= (pow2 0) 1))
 (assert (forall ((n Int)) (! (=> (> n 0) (= (pow2 n) (* 2 (pow2 (- n 1))))) :pattern ((pow2 n)))))
@@ -289,3 +290,15 @@
       (=> (or wn (forall ((j Int)) (! (=> (and (<= wo j) (< j (+ wo n))) (>= (select W j) 0)) :pattern ((select W j)))))
           (and (<= 0 (psum L lo W wo wn A n)) (<= (psum L lo W wo wn A n) (wsum W wo wn n)))))
      :pattern ((lem_psum_le L lo W wo wn A n)))))
+; number of zero entries among the first n entries of a row (unbound variables of a model)
+;@sig czero : row int -> int
+(declare-fun czero ((Array Int Int) Int Int) Int)
+(assert (forall ((R (Array Int Int)) (o Int) (n Int))
+  (! (= (czero R o n) (ite (<= n 0) 0 (+ (czero R o (- n 1)) (ite (= (select R (+ o (- n 1))) 0) 1 0))))
+     :pattern ((czero R o n)))))
+;@lemma czero_nonneg
+(assert (forall ((R (Array Int Int)) (o Int) (n Int))
+  (! (and (>= (czero R o n) 0) (<= (czero R o n) (ite (<= n 0) 0 n))) :pattern ((czero R o n)))))
+; bit j of i
+;@sig bit : int int -> bool
+(define-fun bit ((i Int) (j Int)) Bool (= (mod (div i (pow2 j)) 2) 1))
